@@ -495,6 +495,11 @@ class Lib:
         interp.err(node, "subscript of %s with %s" % (type(obj).__name__, type(idx).__name__))
 
     def getitem_ext(self, interp, obj, idx, node):
+        if isinstance(obj, SOpaque) and obj.tag == "unique" and idx == 0:
+            n = self.unique_len(interp, obj, node)
+            if not interp.ctx.decide(tb(compare(">", n, 0)), "IndexError", node):
+                raise PyRaise("IndexError", node=node)
+            return self.seq_minmax(interp, obj.payload, "<", node)
         return NotImplemented
 
     def fancy_index(self, interp, obj, idx, node):
@@ -946,6 +951,8 @@ class Lib:
         interp.err(node, "%s on %s and %s" % (op, type(a).__name__, type(b).__name__))
 
     def compare_ext(self, interp, op, a, b, node):
+        if isinstance(a, SOpaque) and a.tag == "unique" and isinstance(b, SCALAR):
+            return SOpaque("uniqmask", (a.payload, op, b))
         if isinstance(a, SOpaque) and isinstance(b, SOpaque) and a.tag in ("set", "set?") and b.tag in ("set", "set?"):
             if op == "<=":
                 return And(*[self.contains(interp, b, x, node) for x in a.payload]) if a.payload else True
@@ -964,6 +971,8 @@ class Lib:
             return False
         if isinstance(a, SRange) and isinstance(b, SRange):
             return self.range_equal(a, b, interp)
+        if isinstance(a, SOpaque) and a.tag == "unique" and isinstance(b, SCALAR):
+            return SOpaque("uniqmask", (a.payload, "==", b))
         if isinstance(a, SRange) or isinstance(b, SRange):
             other = b if isinstance(a, SRange) else a
             if isinstance(other, (SSeq, CList)) and other.kind == "ndarray":
@@ -1045,9 +1054,11 @@ class Lib:
         if isinstance(x, (str, tuple)):
             return len(x)
         if isinstance(x, SOpaque) and x.tag == "set":
-            interp.err(node, "len of a set")
+            return len(x.payload)
         if isinstance(x, SOpaque) and x.tag == "bytes":
             return x.payload
+        if isinstance(x, SOpaque) and x.tag == "unique":
+            return self.unique_len(interp, x, node)
         if x is None or isinstance(x, SOpt):
             if x is None or interp.truth(x.isnone, node):
                 raise PyRaise("TypeError", "object of type 'NoneType' has no len()", node)
@@ -1707,6 +1718,10 @@ class Lib:
         x = args[0]
         if isinstance(x, (bool, SBool)):
             return x
+        if isinstance(x, SOpaque) and x.tag == "uniqmask":
+            seq, op, val = x.payload
+            from .sym import Exists
+            return Exists(0, seq.length, lambda i: compare(op, seq.get(i), val))
         return self.f_any(interp, [x], kwargs, node)
 
     def f_np__all(self, interp, args, kwargs, node):
@@ -1764,12 +1779,28 @@ class Lib:
         return wrap(z3.ToReal(z3.ToInt(tz(x))))
 
     def f_np__unique(self, interp, args, kwargs, node):
+        """np.unique(x): sorted distinct values.  For symbolic x only what the verified code uses is modelled:
+        comparison of the values with a scalar (np.any(dc < 0)), len(dc) (== 1 iff all entries equal), dc[0] (the minimum)."""
         x = args[0]
         if isinstance(x, CList) and all(isinstance(i, int) for i in x.items):
             return CList(sorted(set(x.items)), "ndarray", "int")
-        if isinstance(x, (SSeq, CList)):
+        if isinstance(x, CList):
+            x = self.to_sseq(interp, x, node)
+        if isinstance(x, SSeq):
             return SOpaque("unique", x)
         interp.err(node, "np.unique(%r)" % (x,))
+
+    def unique_len(self, interp, u, node):
+        x = u.payload
+        ctx = interp.ctx
+        if getattr(u, "_len", None) is None:
+            n = SInt(z3.Int(fresh("uniq.len")))
+            alleq = ForAll(0, x.length, lambda i: compare("==", x.get(i), x.get(0)))
+            ctx.assume(And(compare(">=", n, 0), compare("<=", n, x.length),
+                           Iff(compare("==", n, 0), compare("==", x.length, 0)),
+                           Iff(compare("==", n, 1), And(compare(">", x.length, 0), alleq))))
+            u._len = n
+        return u._len
 
     def f_np__finfo(self, interp, args, kwargs, node):
         return SObj("finfo", {"eps": _EPS, "tiny": _TINY})
